@@ -28,7 +28,8 @@ MODULES = ['TamocV.Props.C17', 'TamocV.Model.Particle17']
 RULE = ('call histories on real particle objects: gas bubbles / liquid drops of 1-5 database compounds (some with unreleased, '
         'zero-initial-mass components) and inert particles; K, K_T in {0, 1, U(0,10)}; fdis 1e-9..1e-1; per call masses from '
         'full, partial, log-uniform down to 1e-12, at the threshold (fdis*(1+-eps)), all released below threshold, exactly zero, '
-        'slightly negative; ages 0, around t_hyd (exact, next float), around the lag times; T = Ta + d with d across +-0.5 K '
+        'slightly negative, MIXED signs with every released component below threshold (tiny positive remainders 1e-14..fdis of m0 plus negative '
+        'overshoots of 1e-3..1e3 times the remainder on released / unreleased components, 2-5 compounds); ages 0, around t_hyd (exact, next float), around the lag times; T = Ta + d with d across +-0.5 K '
         '(+-0.49, +-0.5, +-0.499999, +-0.500001, +-0.51, 0, U(0.6,30), -U(0.6,2)); properties and update calls in random order; a call is non-trivial when its '
         '(kind, mass pattern, temperature pattern, age pattern, K_T state, particle kind) combination or its rounded inputs are new; '
         'InsolubleParticle.density on random (gamma, beta, co, T, P) incl. the standard state')
@@ -64,7 +65,10 @@ def gen_masses(r, m0, fdis, soluble, upd):
         return np.array([-m0[0] * 10 ** r.uniform(-15, -9)]), pat
     pat = r.choice(['full', 'full', 'partial', 'partial', 'partial', 'partial', 'log', 'log', 'log', 'log', 'threshold', 'threshold',
                     'threshold', 'exact-threshold', 'exact-threshold', 'some-negative', 'some-negative', 'all-below',
-                    'all-below', 'all-below', 'all-below', 'zero', 'all-negative'])
+                    'all-below', 'all-below', 'all-below', 'zero', 'all-negative', 'mixed-sign', 'mixed-sign', 'mixed-sign',
+                    'mixed-sign'])
+    if pat == 'mixed-sign' and nc < 2:
+        pat = 'all-below'
     m = m0.copy()
     if pat == 'partial':
         m = m0 * np.array([r.uniform(0., 1.) for _ in range(nc)])
@@ -86,6 +90,35 @@ def gen_masses(r, m0, fdis, soluble, upd):
                         break
                     x = math.nextafter(x, math.inf if x / m0[i] < fdis else 0.)
                 m[i] = x
+    elif pat == 'mixed-sign':
+        # every released component below its threshold, MIXED signs: at least one tiny positive remainder
+        # (1e-14 .. fdis of m0) and at least one negative solver overshoot whose total magnitude is 1e-3 .. 1e3 times
+        # the positive remainder (on released and/or unreleased components).  By the property the particle is
+        # dissolved (clipped masses: all released cut) => zero slip, neutral density.
+        relidx = [i for i in range(nc) if rel[i]]
+        m = np.zeros(nc)
+        npos = r.randint(1, max(1, len(relidx) - (1 if r.random() < 0.7 else 0)))
+        pos = r.sample(relidx, npos)
+        for i in pos:
+            m[i] = m0[i] * 10 ** r.uniform(-14., math.log10(fdis)) * 0.999
+        remainder = float(m[pos].sum())
+        others = [i for i in range(nc) if i not in pos]
+        if not others:                       # every component carries a positive remainder: turn one into the overshoot
+            others = [pos.pop()]
+            m[others[0]] = 0.
+            remainder = float(m[pos].sum()) if pos else 0.
+        if not pos:
+            pos = [others.pop()] if len(others) > 1 else pos
+        neg = r.sample(others, r.randint(1, len(others)))
+        total = max(remainder, 1e-300) * 10 ** r.uniform(-3., 3.)
+        w = [r.uniform(0.1, 1.) for _ in neg]
+        for i, wi in zip(neg, w):
+            m[i] = -total * wi / sum(w)
+        for i in others:
+            if i not in neg and not rel[i]:
+                # unreleased component: nothing, a trace below the remainder, or (rarely) a dominant stripped mass
+                m[i] = r.choice([0., 0., remainder * r.uniform(0., 0.9), remainder * r.uniform(1.1, 100.)])
+        return m, pat
     elif pat == 'some-negative':
         m = m0 * np.array([r.choice([r.uniform(0., 1.), -10 ** r.uniform(-15, -8), 0.]) for _ in range(nc)])
         if not (m > 0).any():
@@ -451,6 +484,9 @@ def predicates(ctx, h):
                 #      slip and neutral density, and everything returned is finite
                 neutral_ok = (us == 0. and rho_p == rho_amb)
                 ctx.count('all released cut: ' + ('neutralised' if neutral_ok else 'NOT neutralised'))
+                if c['pats'][0] == 'mixed-sign' and not zero_all and np.sum(mc[rel]) > np.sum(mc[~rel]):
+                    ctx.count('mixed-sign state: dissolved by the clipped masses (neutralisation demanded)')
+                    ctx.count('mixed-sign via ' + ('update' if c['upd'] else 'properties'))
                 if zero_all:
                     ctx.count('all masses exactly zero after clipping')
                     if not allfin:
@@ -620,7 +656,9 @@ def biorate_part(ctx, lean_ok):
 
 FLOORS_QUICK = {'histories': 150, 'calls': 1500, 'all released cut: neutralised': 100, 'not all released cut: library values pass through': 400,
                 'component cut': 500, 'component kept': 500, 'component unreleased': 150, 'K_T switch fired': 50, 'status clean': 150,
-                'status dirty': 400, 'call:update:shortcut': 30, 'mass:exact-threshold': 30, 'temp:edge': 150, 'age:hyd-exact': 50}
+                'status dirty': 400, 'call:update:shortcut': 30, 'mass:exact-threshold': 30, 'mass:mixed-sign': 30,
+                'mixed-sign state: dissolved by the clipped masses (neutralisation demanded)': 30,
+                'mixed-sign via properties': 25, 'mixed-sign via update': 5, 'temp:edge': 150, 'age:hyd-exact': 50}
 
 
 def run(ctx, lean_ok):
